@@ -43,6 +43,10 @@ NEEDS = {
  "C01a": "a node with k-mers to the left of its seed and payloads that are not all equal (the seed's payload is folded once per left step instead)",
  "C01b": "a reduction that treats its two arguments differently (invisible to + or max): right-walk steps swap path object and k-mer object",
  "C01c": "compress_kmers_no_exts (never called by the test suite): right extensions derived from the LEFT neighbours - panics with `unreachable` on forked input, splits linear contigs",
+ "C09c": "a non-empty censor list and a surviving node among the last |censor| ids that no lower-numbered seed absorbs (BitSet::len counts set bits, the seed loop stops early)",
+ "C09d": "unstranded, a left node walk ending on a node traversed reversed that has terminal extensions (rc() instead of complement() moves the bits to the wrong nibble)",
+ "C09e": "a node walk that returns to its own seed (circle, already-compressed circular node, odd-k hairpin): the seed is taken out of the available set after the walk",
+ "C03d": "max_path on a graph with a cycle through the best-scoring node (the last node of the right walk is never marked used)",
  "C02c": "a join predicate that is reflexive but not constant (colour equality): join_test(kmer_data, kmer_data) always accepts",
 }
 def detection(sid):
